@@ -18,6 +18,17 @@ pub(crate) enum Mode {
 }
 
 impl Mode {
+  /// Sum of the file lengths, or `None` if it does not fit in a `u64`.
+  pub(crate) fn checked_content_size(&self) -> Option<Bytes> {
+    match self {
+      Self::Single { length, .. } => Some(*length),
+      Self::Multiple { files } => files
+        .iter()
+        .try_fold(0u64, |sum, file| sum.checked_add(file.length.count()))
+        .map(Bytes),
+    }
+  }
+
   pub(crate) fn content_size(&self) -> Bytes {
     match self {
       Self::Single { length, .. } => *length,
